@@ -41,6 +41,9 @@ type history struct {
 	fail   func(sig, format string, args ...any)
 	cover  func(key string)
 	conn   *feedConn
+
+	builder       *protocol.BatchDataCodingEncoder
+	lastBatchText string
 }
 
 func scribble(b []byte) {
@@ -283,8 +286,15 @@ func (h *history) step() bool {
 			if text == "" {
 				text = "x"
 			}
-			parts, _, err := protocol.NewBatchDataCodingEncoder().Protocol(protocol.SMPP).Content(text, 7).
-				DataCodings([]datacoding.ProtocolDataCoding{datacoding.SMPP_CODING_GSM7_PACKED, datacoding.SMPP_CODING_UCS2, datacoding.SMPP_CODING_Latin1}).Build(ctx)
+			if h.builder == nil || r.Chance(1, 4) {
+				h.builder = protocol.NewBatchDataCodingEncoder().Protocol(protocol.SMPP).
+					DataCodings([]datacoding.ProtocolDataCoding{datacoding.SMPP_CODING_GSM7_PACKED, datacoding.SMPP_CODING_UCS2, datacoding.SMPP_CODING_Latin1})
+			}
+			if h.lastBatchText != "" && r.Chance(1, 3) {
+				text = h.lastBatchText // same text, new reference byte: bulk sending with a reused builder
+			}
+			h.lastBatchText = text
+			parts, _, err := h.builder.Content(text, byte(r.U32())).Build(ctx)
 			if err == nil {
 				h.keepParts("batch", parts)
 			}
